@@ -79,7 +79,9 @@ func checkConfigGetters(c *Ctx, rule string, getters ...string) {
 					if r.Mentions(func(t *Term) bool { return t.Op == "field" && t.Name == want }) {
 						continue
 					}
-					if r.Mentions(func(t *Term) bool { return (t.Op == "fn" || t.Op == "closure") && strings.HasSuffix(def, t.Name) || t.Fn != nil && short(t.Fn.String()) == def }) {
+					if r.Mentions(func(t *Term) bool {
+						return (t.Op == "fn" || t.Op == "closure") && strings.HasSuffix(def, t.Name) || t.Fn != nil && short(t.Fn.String()) == def
+					}) {
 						seenDefault = true
 						continue
 					}
